@@ -1,10 +1,14 @@
 import Sigc.Model
 import Sigc.Lemmas.Basic
+import Sigc.Lemmas.StepSlots
+import Sigc.Lemmas.StepSlots2
+import Sigc.Lemmas.StepSlots3
+import Sigc.Spec
 /-!
 # C12 — blocking suspends a slot without disconnecting it
 -/
 namespace Sigc.C12
-open Sigc.Model
+open Sigc.Model Sigc.StepSlots
 
 /-- `block()/unblock()` on a slot variable returns the previous state, sets the new one, and affects
     only that slot: no other slot variable, no signal, no connection changes -/
@@ -78,5 +82,373 @@ theorem emitLoop_skips_blocked (f : Nat) (P : Prog) (s : St) (i cur m arg r : Na
 example : stepSimple { S := [(0, { isVoid := false, slot := { blocked := true, rep := none } })] } (.blockS 0 false)
     = some ({ S := [(0, { isVoid := false, slot := { blocked := false, rep := none } })] }, "1") := by
   simp [stepSimple, aget, aset, bstr]
+
+/-! ## `block()/unblock()/blocked()` through a connection or scoped_connection -/
+
+/-- meaning of the helper `setBlocked cid b cs` (the list with the flag of cell `cid` set to `b`):
+    same length, ids, reps and parent links; flags changed only at id `cid` -/
+theorem setBlocked_only_that_cell (cid : Nat) (b : Bool) (cs : List Cell) :
+    (setBlocked cid b cs).length = cs.length ∧
+    (setBlocked cid b cs).map (·.id) = cs.map (·.id) ∧
+    (setBlocked cid b cs).map (·.slot.rep) = cs.map (·.slot.rep) ∧
+    (setBlocked cid b cs).map (·.linked) = cs.map (·.linked) ∧
+    (setBlocked cid b cs).map (·.slot.blocked) = cs.map (fun c => if c.id = cid then b else c.slot.blocked) :=
+  setBlocked_shape cid b cs
+
+/-- `connection::block(b)` on a connection that points at a live cell `cid` (of impl `im`): returns the
+    previous state of that cell, sets the new one, and affects only that cell: the impl's list is the same
+    with only that flag changed, every other impl, every other cell lookup, every `connected()` answer,
+    all slot variables, connections, handles and trackables are unchanged -/
+theorem blockC_returns_previous_only_that_slot (s s' : St) (r : String) (i : Nat) (b : Bool) (cid im : Nat) (c : Cell)
+    (hp : aget s.C i = some (some cid)) (hc : getCell s cid = some (im, c))
+    (h : stepSimple s (.blockC i b) = some (s', r)) :
+    r = bstr c.slot.blocked ∧
+    (∃ x, aget s.impls im = some x ∧ x.cells.find? (·.id = cid) = some c ∧
+          aget s'.impls im = some { x with cells := setBlocked cid b x.cells }) ∧
+    (∀ k, k ≠ im → aget s'.impls k = aget s.impls k) ∧
+    getCell s' cid = some (im, { c with slot := { c.slot with blocked := b } }) ∧
+    connBlocked s' (some cid) = b ∧
+    (∀ cid', cid' ≠ cid → getCell s' cid' = getCell s cid') ∧
+    (∀ p, connConnected s' p = connConnected s p) ∧
+    s'.S = s.S ∧ s'.C = s.C ∧ s'.K = s.K ∧ s'.G = s.G ∧ s'.T = s.T := by
+  simp only [stepSimple, hp, Option.some.injEq, Prod.mk.injEq] at h
+  obtain ⟨rfl, rfl⟩ := h
+  obtain ⟨hb, x, hx, hf, heq, hg1, hg2, hcc⟩ := connBlock_spec s cid im c b hc
+  refine ⟨by rw [hb], ⟨x, hx, hf, by rw [heq]; exact aget_aset_same _ _ _⟩, ?_, hg1, ?_, hg2, hcc, ?_⟩
+  · intro k hk; rw [heq]; exact aget_aset_other _ _ _ _ hk
+  · simp [connBlocked, hg1]
+  · rw [heq]; exact ⟨rfl, rfl, rfl, rfl, rfl⟩
+
+/-- the same through a `scoped_connection` -/
+theorem blockK_returns_previous_only_that_slot (s s' : St) (r : String) (i : Nat) (b : Bool) (cid im : Nat) (c : Cell)
+    (hp : aget s.K i = some (some cid)) (hc : getCell s cid = some (im, c))
+    (h : stepSimple s (.blockK i b) = some (s', r)) :
+    r = bstr c.slot.blocked ∧
+    (∃ x, aget s.impls im = some x ∧ x.cells.find? (·.id = cid) = some c ∧
+          aget s'.impls im = some { x with cells := setBlocked cid b x.cells }) ∧
+    (∀ k, k ≠ im → aget s'.impls k = aget s.impls k) ∧
+    getCell s' cid = some (im, { c with slot := { c.slot with blocked := b } }) ∧
+    connBlocked s' (some cid) = b ∧
+    (∀ cid', cid' ≠ cid → getCell s' cid' = getCell s cid') ∧
+    (∀ p, connConnected s' p = connConnected s p) ∧
+    s'.S = s.S ∧ s'.C = s.C ∧ s'.K = s.K ∧ s'.G = s.G ∧ s'.T = s.T := by
+  simp only [stepSimple, hp, Option.some.injEq, Prod.mk.injEq] at h
+  obtain ⟨rfl, rfl⟩ := h
+  obtain ⟨hb, x, hx, hf, heq, hg1, hg2, hcc⟩ := connBlock_spec s cid im c b hc
+  refine ⟨by rw [hb], ⟨x, hx, hf, by rw [heq]; exact aget_aset_same _ _ _⟩, ?_, hg1, ?_, hg2, hcc, ?_⟩
+  · intro k hk; rw [heq]; exact aget_aset_other _ _ _ _ hk
+  · simp [connBlocked, hg1]
+  · rw [heq]; exact ⟨rfl, rfl, rfl, rfl, rfl⟩
+
+example : stepSimple { C := [(0, some 4)],
+                       impls := [(3, { cells := [{ id := 4, slot := { blocked := false, rep := some { call := true, fn := some (.leaf 3 []) } }, linked := true },
+                                                 { id := 5, slot := { blocked := false, rep := some { call := true, fn := some (.leaf 6 []) } }, linked := true }] })] }
+      (.blockC 0 true)
+    = some ({ C := [(0, some 4)],
+              impls := [(3, { cells := [{ id := 4, slot := { blocked := true, rep := some { call := true, fn := some (.leaf 3 []) } }, linked := true },
+                                        { id := 5, slot := { blocked := false, rep := some { call := true, fn := some (.leaf 6 []) } }, linked := true }] })] }, "0") := by
+  simp [stepSimple, aget, aset, connBlock, connBlocked, getCell, findCellImpl, updCell, setImpl, bstr]
+
+/-- on an empty connection (never connected, or its slot is gone) `block()` does nothing and returns false -/
+theorem blockC_empty_connection (s s' : St) (r : String) (i : Nat) (b : Bool) (p : Option Nat)
+    (hp : aget s.C i = some p) (hd : p = none ∨ ∃ cid, p = some cid ∧ getCell s cid = none)
+    (h : stepSimple s (.blockC i b) = some (s', r)) : r = "0" ∧ s' = s := by
+  simp only [stepSimple, hp, Option.some.injEq, Prod.mk.injEq] at h
+  obtain ⟨rfl, rfl⟩ := h
+  obtain ⟨h1, h2⟩ := connBlock_none s p b hd
+  exact ⟨by rw [h2]; rfl, h1⟩
+
+theorem blockK_empty_connection (s s' : St) (r : String) (i : Nat) (b : Bool) (p : Option Nat)
+    (hp : aget s.K i = some p) (hd : p = none ∨ ∃ cid, p = some cid ∧ getCell s cid = none)
+    (h : stepSimple s (.blockK i b) = some (s', r)) : r = "0" ∧ s' = s := by
+  simp only [stepSimple, hp, Option.some.injEq, Prod.mk.injEq] at h
+  obtain ⟨rfl, rfl⟩ := h
+  obtain ⟨h1, h2⟩ := connBlock_none s p b hd
+  exact ⟨by rw [h2]; rfl, h1⟩
+
+example : stepSimple { C := [(0, some 9)], impls := [(3, { cells := [{ id := 4, slot := {}, linked := true }] })] } (.blockC 0 true)
+    = some ({ C := [(0, some 9)], impls := [(3, { cells := [{ id := 4, slot := {}, linked := true }] })] }, "0") := by
+  simp [stepSimple, aget, connBlock, connBlocked, getCell, findCellImpl, bstr]
+
+/-- `connection::blocked()` / `scoped_connection::blocked()` report the flag of the cell pointed at,
+    false for an empty connection, and change nothing -/
+theorem blockedCq_reports (s : St) (i : Nat) (p : Option Nat) (hp : aget s.C i = some p) :
+    stepSimple s (.blockedCq i) = some (s, bstr (connBlocked s p)) ∧
+    (∀ cid im c, p = some cid → getCell s cid = some (im, c) → connBlocked s p = c.slot.blocked) ∧
+    ((p = none ∨ ∃ cid, p = some cid ∧ getCell s cid = none) → connBlocked s p = false) := by
+  refine ⟨by simp only [stepSimple, hp], ?_, fun hd => (connBlock_none s p false hd).2⟩
+  intro cid im c hpc hc
+  subst hpc
+  simp [connBlocked, hc]
+
+theorem blockedKq_reports (s : St) (i : Nat) (p : Option Nat) (hp : aget s.K i = some p) :
+    stepSimple s (.blockedKq i) = some (s, bstr (connBlocked s p)) ∧
+    (∀ cid im c, p = some cid → getCell s cid = some (im, c) → connBlocked s p = c.slot.blocked) ∧
+    ((p = none ∨ ∃ cid, p = some cid ∧ getCell s cid = none) → connBlocked s p = false) := by
+  refine ⟨by simp only [stepSimple, hp], ?_, fun hd => (connBlock_none s p false hd).2⟩
+  intro cid im c hpc hc
+  subst hpc
+  simp [connBlocked, hc]
+
+example : stepSimple { K := [(0, some 4)], impls := [(3, { cells := [{ id := 4, slot := { blocked := true, rep := none }, linked := true }] })] } (.blockedKq 0)
+    = some ({ K := [(0, some 4)], impls := [(3, { cells := [{ id := 4, slot := { blocked := true, rep := none }, linked := true }] })] }, "1") := by
+  simp [stepSimple, aget, connBlocked, getCell, findCellImpl, bstr]
+
+/-! ## `signal.block()` sets the slots present at that moment, and no slot connected later -/
+
+/-- `signal.block(b)` in full: the list keeps its length, ids, reps and links, every flag becomes `b`;
+    no handle, slot variable, connection or trackable changes; every `connected()` and `size()` answer
+    is unchanged (a blocked slot stays connected) -/
+theorem blockG_only_flags (s s' : St) (r : String) (g im : Nat) (b : Bool) (h0 : Handle) (x : Impl)
+    (hg : aget s.G g = some h0) (hi : h0.impl = some im) (hx : aget s.impls im = some x)
+    (h : stepSimple s (.blockG g b) = some (s', r)) :
+    r = "ok" ∧ aget s'.impls im = some { x with cells := blockAll b x.cells } ∧
+    (blockAll b x.cells).length = x.cells.length ∧
+    (blockAll b x.cells).map (·.id) = x.cells.map (·.id) ∧
+    (blockAll b x.cells).map (·.slot.rep) = x.cells.map (·.slot.rep) ∧
+    (blockAll b x.cells).map (·.linked) = x.cells.map (·.linked) ∧
+    (∀ c ∈ blockAll b x.cells, c.slot.blocked = b) ∧
+    (∀ k, k ≠ im → aget s'.impls k = aget s.impls k) ∧
+    s'.G = s.G ∧ s'.S = s.S ∧ s'.C = s.C ∧ s'.K = s.K ∧ s'.T = s.T ∧
+    (∀ p, connConnected s' p = connConnected s p) ∧
+    (∀ g' r0, stepSimple s (.sizeq g') = some (s, r0) → stepSimple s' (.sizeq g') = some (s', r0)) := by
+  rw [blockG_eq s g im b h0 x hg hi hx] at h
+  simp only [Option.some.injEq, Prod.mk.injEq] at h
+  obtain ⟨rfl, rfl⟩ := h
+  obtain ⟨h1, h2, h3, h4, h5⟩ := blockAll_shape b x.cells
+  refine ⟨rfl, aget_aset_same _ _ _, h1, h2, h3, h4, h5, fun k hk => aget_aset_other _ _ _ _ hk,
+          rfl, rfl, rfl, rfl, rfl, ?_, ?_⟩
+  · exact connConnected_mapCells s im x _ (fun _ => rfl) (fun _ => rfl) hx
+  · exact sizeq_mapCells s im x _ hx
+
+/-- `signal.block()` never changes a handle, slot variable, connection or trackable — in every state and
+    branch (dead signal, signal without a list) -/
+theorem blockG_frame_all (s s' : St) (r : String) (g : Nat) (b : Bool) (h : stepSimple s (.blockG g b) = some (s', r)) :
+    s'.G = s.G ∧ s'.S = s.S ∧ s'.C = s.C ∧ s'.K = s.K ∧ s'.T = s.T ∧ s'.next = s.next :=
+  blockG_frame s s' r g b h
+
+/-- a slot connected from a functor (`connfn`) starts unblocked whatever the state — in particular after a
+    `signal.block()` — and the insertion leaves every existing cell (and its flag) in place -/
+theorem connfn_new_cell_unblocked (s s0 s1 s' : St) (r : String) (k g : Nat) (spec : FSpec) (first : Bool)
+    (h : Handle) (fn : Fun) (im : Nat) (x : Impl)
+    (hg : aget s.G g = some h) (hf : mkFun s h.fl.isVoid spec = .ok (fn, s0))
+    (hta : specTaint s spec < (h.lvl : Int))
+    (he : ensureImpl s0 g = some (s1, im)) (hx : aget s1.impls im = some x)
+    (hstep : stepSimple s (.connfn k g spec first) = some (s', r)) :
+    r = "ok" ∧
+    aget s'.impls im = some { x with cells :=
+      if first then { id := s1.next, slot := { blocked := false, rep := some { call := true, fn := some fn } }, linked := true } :: x.cells
+      else x.cells ++ [{ id := s1.next, slot := { blocked := false, rep := some { call := true, fn := some fn } }, linked := true }] } ∧
+    (∀ i, i ≠ im → aget s'.impls i = aget s1.impls i) ∧
+    aget s'.C k = some (some s1.next) ∧ s'.S = s.S := by
+  rw [connfn_eq s s0 s1 k g spec first h fn im x hg hf hta he hx] at hstep
+  simp only [Option.some.injEq, Prod.mk.injEq] at hstep
+  obtain ⟨rfl, rfl⟩ := hstep
+  obtain ⟨⟨hS0, _⟩, _⟩ := mkFun_ok s s0 _ spec fn hf
+  obtain ⟨hS1, _⟩ := ensureImpl_spec s0 s1 g im he
+  refine ⟨rfl, ?_, fun i hi => aget_aset_other _ _ _ _ hi, aget_aset_same _ _ _, by rw [← hS0, ← hS1]; rfl⟩
+  show aget (aset s1.impls im _) im = _
+  rw [aget_aset_same]
+  cases first <;> rfl
+
+/-- a slot connected from a slot variable (`conn`, by copy) starts with the blocking state of the copy of
+    that variable — not with the signal's — and leaves every existing cell in place -/
+theorem conn_new_cell_flag (s s1 s' : St) (r : String) (k g sv : Nat) (first : Bool) (h : Handle) (v : SlotVar)
+    (im : Nat) (x : Impl)
+    (hg : aget s.G g = some h) (hv : aget s.S sv = some v)
+    (hty : h.fl.isVoid = v.isVoid) (hta : v.taint < (h.lvl : Int))
+    (he : ensureImpl s g = some (s1, im)) (hx : aget s1.impls im = some x)
+    (hstep : stepSimple s (.conn k g sv first false) = some (s', r)) :
+    ∃ c, c.id = s1.next ∧ c.slot.blocked = v.slot.copy.blocked ∧
+      ((v.slot.rep = none ∨ v.slot.empty = false) → c.slot.blocked = v.slot.blocked) ∧
+      aget s'.impls im = some { x with cells := if first then c :: x.cells else x.cells ++ [c] } := by
+  rw [conn_copy_eq s s1 k g sv first h v im x hg hv hty hta he hx] at hstep
+  simp only [Option.some.injEq, Prod.mk.injEq] at hstep
+  obtain ⟨rfl, rfl⟩ := hstep
+  refine ⟨newCell s1.next v.slot.copy, rfl, withDummy_blocked _, ?_, ?_⟩
+  · intro hh
+    show (withDummy v.slot.copy).blocked = _
+    rw [withDummy_blocked]
+    unfold SlotB.copy
+    cases hr : v.slot.rep with
+    | none => simp
+    | some rp =>
+      rcases hh with hh | hh
+      · simp [hr] at hh
+      · simp [SlotB.empty, hr] at hh; simp [hh]
+  · show aget (aset s1.impls im _) im = _
+    rw [aget_aset_same]
+    cases first <;> rfl
+
+/-- `block()` on a signal sets the state of no slot connected later: after `signal.block(true)` a slot
+    connected from a functor is unblocked, so `signal.blocked()` answers 0 -/
+theorem blockG_not_later (s sb s0 s1 s2 : St) (r1 r2 : String) (k g : Nat) (spec : FSpec) (first : Bool)
+    (h : Handle) (fn : Fun) (im : Nat) (x : Impl)
+    (hb : stepSimple s (.blockG g true) = some (sb, r1))
+    (hg : aget sb.G g = some h) (hf : mkFun sb h.fl.isVoid spec = .ok (fn, s0))
+    (hta : specTaint sb spec < (h.lvl : Int))
+    (he : ensureImpl s0 g = some (s1, im)) (hx : aget s1.impls im = some x)
+    (hstep : stepSimple sb (.connfn k g spec first) = some (s2, r2)) :
+    sb.G = s.G ∧ r2 = "ok" ∧ stepSimple s2 (.blockedGq g) = some (s2, "0") := by
+  have hG := (blockG_frame s sb r1 g true hb).1
+  rw [connfn_eq sb s0 s1 k g spec first h fn im x hg hf hta he hx] at hstep
+  simp only [Option.some.injEq, Prod.mk.injEq] at hstep
+  obtain ⟨rfl, rfl⟩ := hstep
+  obtain ⟨h', hg', hi'⟩ := ensureImpl_handle s0 s1 g im he
+  refine ⟨hG, rfl, ?_⟩
+  have hg2 : aget (setConn (setImpl { s1 with next := s1.next + 1 } im
+      { x with cells := insAt first (newCell s1.next { blocked := false, rep := some { call := true, fn := some fn } }) x.cells })
+      k (some s1.next)).G g = some h' := hg'
+  simp only [stepSimple, hg2, hi']
+  simp [setConn, setImpl, all_insAt, newCell, withDummy, bstr]
+
+example : ∃ sb s2, stepSimple { G := [(0, { obj := 1, fl := .I, impl := some 3, trk := 2, lvl := 0 })],
+                                 impls := [(3, { cells := [{ id := 4, slot := { blocked := false, rep := some { call := true, fn := some (.leaf 3 []) } }, linked := true }] })],
+                                 next := 5 } (.blockG 0 true) = some (sb, "ok")
+    ∧ stepSimple sb (.blockedGq 0) = some (sb, "1")
+    ∧ stepSimple sb (.connfn 0 0 (.fn 7) false) = some (s2, "ok")
+    ∧ stepSimple s2 (.blockedGq 0) = some (s2, "0") := by
+  refine ⟨_, _, by simp [stepSimple, aget]; rfl, ?_, by simp [stepSimple, mkFun, specTaint, ensureImpl]; rfl, ?_⟩ <;>
+  simp [stepSimple, aget, aset, setImpl, setConn, insertCell, St.fresh, bstr]
+
+/-! ## `signal.blocked()` -/
+
+/-- a signal whose list is empty reports blocked (vacuous truth) -/
+theorem blockedG_vacuous_empty_list (s : St) (g im : Nat) (h0 : Handle) (x : Impl)
+    (hg : aget s.G g = some h0) (hi : h0.impl = some im) (hx : aget s.impls im = some x) (hc : x.cells = []) :
+    stepSimple s (.blockedGq g) = some (s, "1") := by
+  simp [stepSimple, hg, hi, hx, hc, bstr]
+
+/-- after `signal.block(b)`, `signal.blocked()` answers `b` for a non-empty list and 1 for an empty one -/
+theorem blockG_then_blockedGq (s s' : St) (r : String) (g im : Nat) (b : Bool) (h0 : Handle) (x : Impl)
+    (hg : aget s.G g = some h0) (hi : h0.impl = some im) (hx : aget s.impls im = some x)
+    (h : stepSimple s (.blockG g b) = some (s', r)) :
+    stepSimple s' (.blockedGq g) = some (s', bstr (x.cells.isEmpty || b)) := by
+  rw [blockG_eq s g im b h0 x hg hi hx] at h
+  simp only [Option.some.injEq, Prod.mk.injEq] at h
+  obtain ⟨rfl, rfl⟩ := h
+  simp only [stepSimple, setImpl, hg, hi, aget_aset_same, Option.map, Option.getD, all_blockAll]
+
+example : stepSimple { G := [(0, { obj := 1, fl := .I, impl := some 3, trk := 2, lvl := 0 })], impls := [(3, {})] } (.blockedGq 0)
+    = some ({ G := [(0, { obj := 1, fl := .I, impl := some 3, trk := 2, lvl := 0 })], impls := [(3, {})] }, "1") := by
+  simp [stepSimple, aget, bstr]
+
+/-! ## a blocked slot is skipped, and stays connected -/
+
+/-- the accumulator iterator's `operator*` skips a blocked cell: nothing is invoked, the state and the
+    iterator are unchanged — one unfolding of `deref`, for every fuel, program and functor -/
+theorem deref_skips_blocked (f : Nat) (P : Prog) (s : St) (i arg : Nat) (it : IterBuf) (im : Impl) (c : Cell)
+    (hi : aget s.impls i = some im) (hc : im.cells.find? (·.id = it.pos) = some c) (hb : c.slot.blocked = true) :
+    deref (f+1) P s i it arg = some (s, .ok, it) := by
+  rw [deref]
+  simp only [hi, hc]
+  cases hrep : c.slot.rep with
+  | none => rfl
+  | some rp =>
+    obtain ⟨call, fn⟩ := rp
+    cases call <;> cases fn <;> simp [hb]
+
+example : deref 1 { bodies := [], top := [] }
+    { impls := [(3, { cells := [{ id := 4, slot := { blocked := true, rep := some { call := true, fn := some (.leaf 3 []) } }, linked := true }] })] }
+    3 { pos := 4 } 0
+    = some ({ impls := [(3, { cells := [{ id := 4, slot := { blocked := true, rep := some { call := true, fn := some (.leaf 3 []) } }, linked := true }] })] }, .ok, { pos := 4 }) := by
+  rw [deref_skips_blocked 0 _ _ 3 0 _ _ _ rfl rfl rfl]
+
+/-- invoking a blocked slot variable directly does nothing (state and call log unchanged) and returns a
+    default-constructed result — for every fuel, program and functor -/
+theorem direct_call_default (f : Nat) (P : Prog) (s : St) (i arg : Nat) (v : SlotVar)
+    (hv : aget s.S i = some v) (hd : s.depth < P.maxdepth) (hs : s.steps ≤ P.maxsteps)
+    (hb : v.slot.blocked = true) :
+    execOp (f+1) P s (.callS i arg) = some (s, .ok (showRes v.isVoid 0)) := by
+  have h1 : ¬ (s.depth ≥ P.maxdepth) := by omega
+  have h2 : ¬ (s.steps > P.maxsteps) := by omega
+  rw [execOp]
+  simp only [hv, h1, h2, if_false]
+  cases hr : v.slot.rep with
+  | none => rfl
+  | some rp =>
+    obtain ⟨c, fn⟩ := rp
+    cases c <;> cases fn <;> simp [hb]
+
+example : execOp 1 { bodies := [], top := [] }
+      { S := [(0, { isVoid := true, slot := { blocked := true, rep := some { call := true, fn := some (.leaf 3 []) } } })] } (.callS 0 5)
+    = some ({ S := [(0, { isVoid := true, slot := { blocked := true, rep := some { call := true, fn := some (.leaf 3 []) } } })] }, .ok "r=void") := by
+  rw [direct_call_default 0 _ _ 0 5 _ rfl (by decide) (by decide) rfl]
+  rfl
+
+/-- blocking a slot variable keeps it connected/non-empty and changes no `connected()` / `size()` answer -/
+theorem blockS_stays_connected (s s' : St) (r : String) (i : Nat) (b : Bool) (v : SlotVar)
+    (hv : aget s.S i = some v) (h : stepSimple s (.blockS i b) = some (s', r)) :
+    (∃ v', aget s'.S i = some v' ∧ v'.slot.empty = v.slot.empty ∧ v'.slot.rep = v.slot.rep) ∧
+    s'.G = s.G ∧ s'.impls = s.impls ∧
+    (∀ p, connConnected s' p = connConnected s p) ∧
+    (∀ g r0, stepSimple s (.sizeq g) = some (s, r0) → stepSimple s' (.sizeq g) = some (s', r0)) := by
+  rw [blockS_eq s i b v hv] at h
+  simp only [Option.some.injEq, Prod.mk.injEq] at h
+  obtain ⟨rfl, rfl⟩ := h
+  exact ⟨⟨_, aget_aset_same _ _ _, rfl, rfl⟩, rfl, rfl, connConnected_congr _ _ rfl, sizeq_congr _ _ rfl rfl⟩
+
+/-- blocking through a connection keeps every cell in its list: every `size()` answer is unchanged
+    (`connected()` answers: see `blockC_returns_previous_only_that_slot`) -/
+theorem blockC_size_unchanged (s s' : St) (r : String) (i : Nat) (b : Bool) (p : Option Nat)
+    (hp : aget s.C i = some p) (h : stepSimple s (.blockC i b) = some (s', r)) :
+    ∀ g r0, stepSimple s (.sizeq g) = some (s, r0) → stepSimple s' (.sizeq g) = some (s', r0) := by
+  simp only [stepSimple, hp, Option.some.injEq, Prod.mk.injEq] at h
+  obtain ⟨rfl, _⟩ := h
+  intro g r0 h0
+  cases p with
+  | none => exact h0
+  | some cid =>
+    cases hc : getCell s cid with
+    | none => rw [(connBlock_none s (some cid) b (.inr ⟨cid, rfl, hc⟩)).1]; exact h0
+    | some q =>
+      obtain ⟨im, c⟩ := q
+      obtain ⟨_, x, hx, _, heq, _⟩ := connBlock_spec s cid im c b hc
+      rw [heq]
+      exact sizeq_mapCells s im x _ hx g r0 h0
+
+theorem blockK_size_unchanged (s s' : St) (r : String) (i : Nat) (b : Bool) (p : Option Nat)
+    (hp : aget s.K i = some p) (h : stepSimple s (.blockK i b) = some (s', r)) :
+    ∀ g r0, stepSimple s (.sizeq g) = some (s, r0) → stepSimple s' (.sizeq g) = some (s', r0) := by
+  simp only [stepSimple, hp, Option.some.injEq, Prod.mk.injEq] at h
+  obtain ⟨rfl, _⟩ := h
+  intro g r0 h0
+  cases p with
+  | none => exact h0
+  | some cid =>
+    cases hc : getCell s cid with
+    | none => rw [(connBlock_none s (some cid) b (.inr ⟨cid, rfl, hc⟩)).1]; exact h0
+    | some q =>
+      obtain ⟨im, c⟩ := q
+      obtain ⟨_, x, hx, _, heq, _⟩ := connBlock_spec s cid im c b hc
+      rw [heq]
+      exact sizeq_mapCells s im x _ hx g r0 h0
+
+example : ∃ s', stepSimple { G := [(0, { obj := 1, fl := .I, impl := some 3, trk := 2, lvl := 0 })], C := [(0, some 4)],
+                              impls := [(3, { cells := [{ id := 4, slot := { blocked := false, rep := some { call := true, fn := some (.leaf 3 []) } }, linked := true }] })] }
+      (.blockC 0 true) = some (s', "0") ∧ stepSimple s' (.sizeq 0) = some (s', "1") ∧ stepSimple s' (.connectedq 0) = some (s', "1") := by
+  refine ⟨_, by simp [stepSimple, aget, connBlock, connBlocked, getCell, findCellImpl, bstr]; rfl, ?_, ?_⟩ <;>
+  simp [stepSimple, aget, aset, updCell, setImpl, connConnected, getCell, findCellImpl, SlotB.empty, bstr] <;> rfl
+
+/-! ## the specification `S` -/
+
+/-- in the statement-level specification `S`, `block()/unblock()` on a slot variable also returns the
+    previous state, sets the new one and changes nothing but that variable -/
+theorem spec_blockS_returns_previous_only_that_slot (l l' : Spec.LSt) (r : String) (i : Nat) (b : Bool) (v : SlotVar)
+    (hv : aget l.S i = some v) (h : Spec.stepSimple l (.blockS i b) = some (l', r)) :
+    r = bstr v.slot.blocked ∧
+    aget l'.S i = some { v with slot := { v.slot with blocked := b } } ∧
+    (∀ k, k ≠ i → aget l'.S k = aget l.S k) ∧
+    l'.sigs = l.sigs ∧ l'.C = l.C ∧ l'.K = l.K ∧ l'.G = l.G ∧ l'.T = l.T := by
+  simp only [Spec.stepSimple, hv] at h
+  simp at h
+  obtain ⟨rfl, rfl⟩ := h
+  refine ⟨rfl, by simp, ?_, rfl, rfl, rfl, rfl, rfl⟩
+  intro k hk
+  exact aget_aset_other _ _ _ _ hk
+
+example : Spec.stepSimple { S := [(0, { isVoid := false, slot := { blocked := true, rep := none } })] } (.blockS 0 false)
+    = some ({ S := [(0, { isVoid := false, slot := { blocked := false, rep := none } })] }, "1") := by
+  simp [Spec.stepSimple, aget, aset, bstr]
 
 end Sigc.C12
